@@ -170,6 +170,9 @@ func WetterK(VWDAT string, year int, g *GlobalVarsMain, s *WeatherDataShared, hP
 		s.REG[0][Tindex] = ValAsFloat(Wettin[9], VWDAT, WETTER)
 		s.MaxYearDays[0] = T
 	}
+	if Tlast == 0 {
+		return fmt.Errorf("%s Failed to parse file: %s, error: no data", g.LOGID, VWDAT)
+	}
 
 	s.replaceMissingValues(1, driConfig.WeatherNoneValue)
 	s.transformWeatherData(1, CORRK[:])
@@ -413,6 +416,10 @@ func ReadWeatherCSV(VWDAT string, startyear int, g *GlobalVarsMain, s *WeatherDa
 			T = d.datetime.YearDay()
 			yrz = 1
 		} else if d.datetime.Day() == 1 && d.datetime.Month() == time.January {
+			// year switch only directly after 31 December of the previous year
+			if prev := d.datetime.AddDate(0, 0, -1); s.JAR[yrz-1] != prev.Year() || s.MaxYearDays[yrz-1] != prev.YearDay() {
+				return fmt.Errorf("%s Failed to parse file: %s, error: missing days", g.LOGID, VWDAT)
+			}
 			T = 1
 			yrz = yrz + 1
 		}
@@ -551,6 +558,10 @@ func ReadWeatherCZ(VWDAT string, startyear int, g *GlobalVarsMain, s *WeatherDat
 			T = d.datetime.YearDay()
 			yrz = 1
 		} else if d.datetime.Day() == 1 && d.datetime.Month() == time.January {
+			// year switch only directly after 31 December of the previous year
+			if prev := d.datetime.AddDate(0, 0, -1); s.JAR[yrz-1] != prev.Year() || s.MaxYearDays[yrz-1] != prev.YearDay() {
+				return fmt.Errorf("%s Failed to parse file: %s, error: missing days", g.LOGID, VWDAT)
+			}
 			T = 1
 			yrz = yrz + 1
 		}
@@ -671,6 +682,11 @@ func (s *WeatherDataShared) replaceMissingValues(yrz int, noneValue float64) {
 			}
 		}
 	}
+}
+
+// daysInYear returns the number of days of a calendar year (365 or 366)
+func daysInYear(year int) int {
+	return time.Date(year, 12, 31, 0, 0, 0, 0, time.UTC).YearDay()
 }
 
 // LoadYear loads weather data from WeatherDataShared of a given year into global GlobalVarsMain
